@@ -68,6 +68,12 @@ def plan_for(v, tag):
     return [(a, arg) for (t, a, arg) in r[3] if t == tag]
 
 
+def _deep_fail(depth, tag, t):
+    if depth > 0:
+        return _deep_fail(depth - 1, tag, t)
+    raise Boom(tag, t)  # SITE-MARK-7f3a call (deep)
+
+
 class TagWorker(Worker):
     def __init__(self, *, tag='A', log_dir=None, fail_init_index=None, fail_init_flag=None, nstream=0, cleanup_logs=0, fuzz=None,
                  base_sleep=0.0, **kwargs):
@@ -156,6 +162,8 @@ class TagWorker(Worker):
                     if a == 'sleep':
                         time.sleep(arg)
                     elif a == 'fail':
+                        if isinstance(arg, int):
+                            _deep_fail(arg, tag, tid(x))  # fails `arg` call levels below call()
                         if arg:
                             # user code may raise any class, also the ones the library itself uses for control flow
                             from .targets import handler_exc_class
